@@ -410,3 +410,91 @@ pub fn replay(args: &Args, s: &mut Summary) {
         }
     });
 }
+
+// ---------------------------------------------------------------------------
+// impl -> spec: random long sequences, one event per line
+fn random_bi(rng: &mut Rng) -> Value {
+    let cls = |rng: &mut Rng| if rng.chance(1, 25) { "bad" } else if rng.chance(1, 30) { "empty" } else { "num" };
+    json!({"n": *rng.pick(&[0, 0, 2, 3, 4, 5, 5, 1]), "b1c": cls(rng), "b1": *rng.pick(&[0, 1, 2, 3, 7]), "b2c": cls(rng), "b2": *rng.pick(&[0, 1, 2, 3, -1]),
+           "cuc": cls(rng), "cu": *rng.pick(&[0, 0, 1, 2, 5]), "voc": cls(rng), "vo": *rng.pick(&[0, 0, 40, 100, -9]),
+           "fn": *rng.pick(&["", "", "f.wav", "a b.ogg"])})
+}
+
+fn random_line(rng: &mut Rng) -> Value {
+    let coordc = |rng: &mut Rng| if rng.chance(1, 30) { "bad" } else if rng.chance(1, 6) { "frac" } else { "int" };
+    let ty = match rng.below(8) {
+        0 => 1,
+        1 => 2,
+        2 => 8,
+        3 => 128,
+        4 => *rng.pick(&[5, 6, 12, 21, 38, 9, 10, 132, 0, 4, 64, 255]),
+        _ => *rng.pick(&[1, 1, 2, 2, 5, 6]),
+    };
+    let is_slider = ty & 1 == 0 && ty & 2 != 0;
+    // sliders sit at (10,10) so that the four named path points can be recognised
+    let (x, y, xc, yc) = if is_slider { (10, 10, "int", "int") } else { (*rng.pick(&[0, 256, 511, -5, 131072, 77]), *rng.pick(&[0, 192, 383, -131072, 12]), coordc(rng), coordc(rng)) };
+    let toks = ["B", "L", "P", "C", "O", "A", "Bc", "Cn", "A2", "X", "B3", "bad", "empty"];
+    let npath = 1 + rng.below(6);
+    let mut path: Vec<&str> = vec![*rng.pick(&["B", "L", "P", "C", "B", "L", "X", "B3", "A"])];
+    for _ in 1..npath {
+        path.push(if rng.chance(1, 20) { *rng.pick(&["bad", "empty"]) } else { *rng.pick(&toks[..11]) });
+    }
+    let t = *rng.pick(&[0, 1000, 1000, 2500, -300, 99999]);
+    let nn = rng.below(5);
+    json!({"xc": if (xc == "frac") && (x == 131072 || x == -131072) { "int" } else { xc }, "x": x,
+           "yc": if (yc == "frac") && (y == 131072 || y == -131072) { "int" } else { yc }, "y": y,
+           "tc": if rng.chance(1, 40) { "bad" } else { "ok" }, "t": t,
+           "tyc": if rng.chance(1, 40) { "bad" } else { "num" }, "ty": ty,
+           "sc": if rng.chance(1, 40) { "bad" } else { "num" }, "snd": *rng.pick(&[0, 0, 2, 4, 8, 14, 1, 258, 255]),
+           "nf": *rng.pick(&[4, 5, 6, 6, 7, 8, 8, 9, 10, 11, 11, 12]), "bi": random_bi(rng),
+           "path": path, "repc": if rng.chance(1, 30) { "bad" } else { "num" }, "rep": *rng.pick(&[1, 1, 2, 3, 0, -2, 9000, 9001]),
+           "lenc": if rng.chance(1, 30) { "bad" } else { "num" }, "len": *rng.pick(&[100, 35, 0, -4, 131072, 250]),
+           "nsnd": (0..nn).map(|_| *rng.pick(&[0, 2, 4, 8, 10, -1])).collect::<Vec<_>>(),
+           "nbank": (0..rng.below(4)).map(|_| random_bi(rng)).collect::<Vec<_>>(),
+           "endc": *rng.pick(&["num", "num", "num", "num", "bad", "empty"]), "end": t + *rng.pick(&[0, 500, -200, 3000])})
+}
+
+pub fn record(args: &Args, s: &mut Summary) {
+    let trace = args.opt("trace").expect("--trace");
+    let runs = args.opt_usize("runs", 10);
+    let nlines = args.opt_usize("lines", 100);
+    let mut rng = Rng::new(args.seed);
+    let mut out: Vec<Value> = vec![];
+    for run in 0..runs {
+        out.push(json!({"ev": "Reset", "run": run}));
+        let mut st = HitObjectsState::create(14);
+        for _ in 0..nlines {
+            let mut ln = random_line(&mut rng);
+            // a huge repeat count makes thousands of node sample lists: keep the trace readable
+            if geti(&ln, "rep") == 9000 {
+                ln["rep"] = json!(4);
+            }
+            let text = spell_line(&ln, &mut rng);
+            let r = guarded(&format!("hitobj record {text:?}"), || {
+                let before = st.hit_objects.len();
+                let ok = HitObjects::parse_hit_objects(&mut st, &text).is_ok();
+                let obj = if st.hit_objects.len() > before { st.hit_objects.last().map(proj_obj) } else { None };
+                (ok, obj, st.hit_objects.len() - before)
+            });
+            s.checks += 1;
+            match r {
+                Err(p) => {
+                    s.mismatch("panic", json!({"text": text, "panic": p}));
+                    break;
+                }
+                Ok((ok, obj, added)) => {
+                    if (ok && added != 1) || (!ok && added != 0) {
+                        s.mismatch("verdict-and-object-count-disagree", json!({"text": text, "ok": ok, "added": added}));
+                        break;
+                    }
+                    out.push(json!({"ev": "Line", "ln": ln, "ok": ok, "obj": obj.unwrap_or(json!({"k": "none"})), "text": text}));
+                }
+            }
+        }
+        s.cases += 1;
+        s.nontrivial_key(&format!("run{run}:{}", out.len()));
+    }
+    s.sample(json!({"first_events": out.iter().skip(1).take(3).cloned().collect::<Vec<_>>()}));
+    s.extra.insert("events".into(), json!(out.len()));
+    write_ndjson(trace, &out);
+}
